@@ -2,9 +2,9 @@ package vuego
 
 import (
 	"fmt"
+	"github.com/titpetric/vuego/internal/helpers"
 	"regexp"
 	"sort"
-	"strings"
 	"sync"
 
 	"github.com/expr-lang/expr"
@@ -40,12 +40,12 @@ func NewExprEvaluator() *ExprEvaluator {
 // It returns the result value and any error.
 // The expression can contain:
 //   - Variable references: item, item.title, items[0]
-//   - Comparison: ==, !=, <, >, <=, >=, === (same as ==, for convenience)
+//   - Comparison: ==, !=, <, >, <=, >=, === and !== (same as == and !=, for convenience)
 //   - Boolean operations: &&, ||, !
 //   - Function calls: len(items), isActive(v)
 //   - Literals: 42, "text", true, false.
 func (e *ExprEvaluator) Eval(expression string, env map[string]any) (any, error) {
-	expression = strings.ReplaceAll(expression, "===", "==")
+	expression = helpers.NormalizeComparisonOperators(expression)
 
 	// Get or compile the program
 	prog, err := e.getProgram(expression)
